@@ -8,6 +8,7 @@ import random
 from collections import Counter
 from pathlib import Path
 
+from . import c19_binders as binders
 from . import common
 from .common import glist, gz
 
@@ -179,22 +180,16 @@ def abstract_module(root: ast.Module, source: str, typevar_nodes=()):
                              scopes=list(chain), node=node))
         elif isinstance(node, ast.arg):
             args.append(node.arg)
-        elif isinstance(node, ast.Attribute):
-            others.append(node.attr)
-        elif isinstance(node, ast.keyword):
-            if node.arg is not None:
-                others.append(node.arg)
-        elif isinstance(node, (ast.Global, ast.Nonlocal)):
-            others.extend(node.names)
         elif isinstance(node, ast.alias):
             others.append((node.asname or node.name).split(".")[0])
-        elif isinstance(node, ast.MatchMapping):
-            if node.rest is not None:
-                others.append(node.rest)
-        elif isinstance(node, (ast.ExceptHandler, ast.MatchAs, ast.MatchStar, ast.TypeVar, ast.ParamSpec,
-                               ast.TypeVarTuple)):
-            if node.name is not None:
-                others.append(node.name)
+        elif type(node) in binders.IDENT_FIELDS and not isinstance(node, ast.ImportFrom):
+            # every other identifier-typed field of the grammar (attributes, keywords, global / nonlocal,
+            # handlers, match captures / star captures / **rest / class-pattern keywords, type parameters),
+            # taken from the ASDL signatures of the running interpreter, not from a hand-written list
+            for field, typ in binders.IDENT_FIELDS[type(node)]:
+                v = getattr(node, field)
+                if v is not None:
+                    others.extend(v if typ.endswith("*") else [v])
         if isinstance(node, (ast.Import, ast.ImportFrom)):
             if not (isinstance(node, ast.ImportFrom) and node.module == "__future__"):
                 imported.extend(a.asname or a.name for a in node.names)
@@ -1097,6 +1092,80 @@ def deterministic_align_cases():
     return out
 
 
+# ---------------------------------------------------------------------------------------------
+# round 5: binder kinds (harness/c19_binders.py)
+
+def binder_cases(tier: str):
+    """binder kind x role x scope shape x kind of the renamed binding; the quick tier keeps every kind, role
+    and shape for an assigned variable and the function / module shapes for a renamed def / class"""
+    for label, src in binders.binder_family():
+        if tier == "quick" and label["flavour"] != "assign" and label["shape"] not in ("function", "module"):
+            continue
+        yield label, src
+
+
+def binder_align_cases():
+    """the part of the family that also goes through the Gallina model of the rule, node by node"""
+    out = []
+    for label, src in binders.binder_family(["assign"]):
+        if (label["shape"], label["role"]) in (("function", "same"), ("function", "new_snake"), ("class", "same"),
+                                               ("module", "new_upper")):
+            out.append((src, frozenset()))
+    return out
+
+
+# generated names x binder kinds: the identifier under test is the name the rule would generate, bound or
+# mentioned in every way next to the code that triggers the rule (one function, so the name is visible there)
+GENERATED_TRIGGERS = {     # rule, generated name, set-up, the code that the rule rewrites
+    "comprehension": ("keys", "d_k", "d = {1: 10, 2: 20}", "print([d[k] for k in d.keys()])"),
+    "for": ("keys", "d_k", "d = {1: 10, 2: 20}", "for k in d.keys():\n    print(d[k])"),
+}
+
+
+# the observer reads the variable without writing its identifier (a written identifier stops the rule, rightly)
+GENERATED_TAIL = "print(_show0(locals().get('d' + '_k', 'unbound')))"
+
+
+def generated_binder_cases():
+    for form, (rule, name, setup, use) in GENERATED_TRIGGERS.items():
+        for kname, place, lines in binders.KINDS:
+            # the kind's own print of the identifier would be a second, plain mention: observe through GENERATED_TAIL
+            snippet = re.sub(r"(?m)^(\s*)print\(.*\b%s\b.*\)$" % name, r"\1pass", lines.format(X=name))
+            for order in ("before", "after"):      # the binder before / after the rewritten code
+                body = "\n".join(([setup, snippet, use] if order == "before" else [setup, use, snippet]) + [GENERATED_TAIL])
+                src = binders.PRELUDE + "def _f0():\n" + binders._ind(body) + "\nf0()\n"
+                try:
+                    compile(src, "<generated-binder>", "exec")
+                except SyntaxError:
+                    continue
+                # the observer is dynamic: it is only meaningful for an identifier that IS a variable of _f0 before
+                # the rewrite (an attribute / keyword / comprehension-scoped mention has nothing to clobber)
+                _f0 = [t for t in symtable.symtable(src, "<generated-binder>", "exec").get_children()
+                      if t.get_name() == "_f0"][0]
+                if name not in _f0.get_identifiers() or not (_f0.lookup(name).is_local() or _f0.lookup(name).is_global()
+                                                            and _f0.lookup(name).is_declared_global()):
+                    continue
+                yield dict(family="generated-name x binder-kinds", rule=rule, form=form, kind=kname, place=place,
+                           order=order, names=[name, name]), src
+
+
+def mention_programs(progs):
+    """every program of the deterministic families + the generated modules of this run"""
+    seen = set()
+    for _, _, _, src in sweep_cases():
+        if src not in seen:
+            seen.add(src)
+            yield src
+    for _, src in binders.binder_family():
+        if src not in seen:
+            seen.add(src)
+            yield src
+    for src in list(EXTRA_ALIGN_PROGRAMS) + list(progs):
+        if src not in seen:
+            seen.add(src)
+            yield src
+
+
 def random_identifier(rnd: random.Random, non_ascii: bool) -> str:
     alpha = "abcxyzABCXYZ019__"
     extra = "éüλ名ßÉ"
@@ -1162,7 +1231,7 @@ def check(run: common.Run):
     progs, ghist = gen_programs(rnd, n_prog)
     hist.update({"program:" + k: v for k, v in ghist.items()})
     acases, crashes = [], []
-    det = deterministic_align_cases()
+    det = deterministic_align_cases() + binder_align_cases()
     hist["align:deterministic-programs"] = len(det)
     jobs = [(src, pres) for src, pres in det]
     for i, src in enumerate(progs):
@@ -1242,6 +1311,28 @@ def check(run: common.Run):
         if g:
             distinct.add(("generated", k, tuple(u)))
 
+    # ---- C'. fixes._iter_identifier_mentions against the enumeration derived from the ASDL
+    mention_bad, n_mention = [], 0
+    place_hist = Counter()
+    for src in mention_programs(progs):
+        try:
+            root = ast.parse(src)
+        except SyntaxError:
+            continue
+        n_mention += 1
+        for node, field, _ in binders.asdl_mentions(root):
+            place_hist[type(node).__name__ + "." + field] += 1
+        try:
+            d = binders.mentions_diff(mods["fixes"], root)
+        except Exception as e:  # noqa
+            d = dict(problem=f"_iter_identifier_mentions raised {type(e).__name__}: {e}")
+        if d:
+            mention_bad.append(dict(source=src, **d))
+    evaluations += n_mention
+    hist.update({"mention-place:" + k: v for k, v in place_hist.items()})
+    missing_places = sorted(set(c.__name__ + "." + f for c, fs in binders.IDENT_FIELDS.items() for f, _ in fs)
+                            - set(place_hist))
+
     # ---- run the model
     results = common.run_case_files(files)
     disagreements = []
@@ -1277,6 +1368,11 @@ def check(run: common.Run):
     for src, pres, m, want, gok in acases:
         if not gok:
             disagreements.append(("align", dict(source=src, problem="transactions are not the groups by new name")))
+    for m in mention_bad[:8]:
+        disagreements.append(("mentions", m))
+    if missing_places:
+        disagreements.append(("mentions", dict(problem="identifier fields of the grammar that no family program contains "
+                                                        "(new interpreter?): " + ", ".join(missing_places))))
 
     # ---- D. deterministic sweep of the property oracle + fixed witnesses + known findings
     oracle_selftest()
@@ -1294,6 +1390,31 @@ def check(run: common.Run):
                     known_hits.setdefault(hit.id, []).append(case)
                 else:
                     failures.append(case)
+    n_binder = 0
+    for label, src in binder_cases(run.tier):
+        n_sweep += 1
+        n_binder += 1
+        f = oracle(mods, "align", src, structure=True)
+        if f:
+            case = dict(rule="align", template="binder-kinds:" + label["kind"], names=label["names"], source=src,
+                        label=label, **f)
+            hit = match_finding(kf, "align", case)
+            if hit:
+                known_hits.setdefault(hit.id, []).append(case)
+            else:
+                failures.append(case)
+        elif label["kind"].startswith("match_star") or label["place"].startswith(("MatchClass", "TypeVar")):
+            distinct.add(("binder", label["kind"], label["role"], label["shape"], label["flavour"]))
+    hist["sweep:binder-kinds"] = n_binder
+    n_gbinder = 0
+    for label, src in generated_binder_cases():
+        n_sweep += 1
+        n_gbinder += 1
+        f = oracle_any(mods, label["rule"], src)
+        if f:
+            failures.append(dict(rule=label["rule"], template="generated-name x binder-kinds:" + label["kind"],
+                                 names=label["names"], source=src, label=label, **f))
+    hist["sweep:generated-binder-kinds"] = n_gbinder
     hist["sweep:programs"] = n_sweep
     corpus = json.loads((common.VERIF / "corpus" / "c19" / "fixed.json").read_text())
     regressions = []
@@ -1330,7 +1451,7 @@ def check(run: common.Run):
                 f = naming_property_fails(mods, TAGS.index(d[1]["function"]), d[1]["input"])
                 if f:
                     found.append({"kind": "property-oracle", "site": "style." + d[1]["function"], **f})
-            elif d[0] in ("align", "uses") and "source" in d[1]:
+            elif d[0] in ("align", "uses", "mentions") and "source" in d[1]:
                 f = oracle(mods, "align", d[1]["source"], structure=True, execute=False)
                 if f:
                     found.append({"kind": "property-oracle", "site": "fixes.align_variable_names_with_convention",
@@ -1412,6 +1533,13 @@ def check(run: common.Run):
         sweep=dict(programs=n_sweep, templates=len(TEMPLATES), name_pairs=len(NAME_PAIRS),
                    rules=["align_variable_names_with_convention", "undefine_unused_variables",
                           "remove_duplicate_functions"], oracle="exec before/after + symtable bijection",
+                   binder_kinds=dict(programs=n_binder, kinds=len(binders.KINDS), shapes=binders.SHAPES,
+                                     flavours=[f[0] for f in binders.FLAVOURS],
+                                     places=sorted(binders.family_places()),
+                                     generated_name_programs=n_gbinder),
+                   mention_enumeration=dict(programs=n_mention, disagreements=len(mention_bad),
+                                            identifier_fields=sorted(c.__name__ + "." + f for c, fs in
+                                                                     binders.IDENT_FIELDS.items() for f, _ in fs)),
                    failures_unmatched=len(failures), failures_known=sum(len(v) for v in known_hits.values())),
         fixed_witnesses=len(corpus), histogram=dict(hist),
         correspondence_disagreements=len(disagreements),
@@ -1424,8 +1552,10 @@ def check(run: common.Run):
         trusted_base=common.TRUSTED_BASE_COMMON + [
             "harness/c19.py abstract_module: ast -> (Name occurrences, def/class nodes, other identifier mentions)",
             "the injective encodings of NamingRun.v / harness encode() and primitive 63-bit integer literals",
-            "identifier mentions: RenameModel.mentions is validated against fixes._iter_identifier_mentions only "
-            "through the rule's output",
+            "identifier mentions: fixes._iter_identifier_mentions is compared with the enumeration of every "
+            "identifier-typed field that the ast docstrings (ASDL) of the running interpreter declare "
+            "(harness/c19_binders.py; three documented deviations); RenameModel.mentions gets its `others` from the "
+            "same enumeration (premise mentions_complete of T19.8)",
             "symtable + exec of CPython 3.12 as the binding-structure / behaviour oracle",
             "atomic application of one transaction per new name (C10 theorems) for the end-to-end reading of T19.5/T19.6"],
     )
